@@ -6,6 +6,7 @@ import (
 	"github.com/wkhere/bcl"
 
 	"verifharness/refbcl"
+	"verifharness/symio"
 	"verifharness/verif"
 )
 
@@ -227,4 +228,71 @@ func smallInt(name string) int {
 	v := verif.Int(name)
 	verif.Assume(v >= 0 && v <= 240)
 	return v
+}
+
+// C14_DumpLayout: a fresh Dump follows the documented layout: the reference
+// decoder recovers exactly the program's parts and re-encodes them to the same
+// bytes; constants of every kind with symbolic values (ints in two size
+// classes, floats, strings).
+func C14_DumpLayout() {
+	progs := []string{
+		"print 1001\nprint 1001.5\nprint \"s1\"\nprint true and nil\n",
+		"var x = 1001\ndef t \"n\" {\n f = x + 1\n def u {\n g = \"s1\"\n}\n}\nbind t:first -> slice\n",
+		"print 0 or 1 and (2 == 1001)\n# comment\n\nprint -1001.5\n",
+	}
+	src := progs[verif.Choice("prog", len(progs))]
+	out, log := &symio.Writer{}, &symio.Writer{}
+	p, err := bcl.Parse([]byte(src), "name", bcl.OptOutput(out), bcl.OptLogger(log))
+	if err != nil {
+		panic("rejected")
+	}
+	var phs, vals []any
+	if containsStr(src, "1001.5") {
+		phs, vals = append(phs, 1001.5), append(vals, verif.Float64("f"))
+	}
+	iv := verif.Int("i")
+	verif.Assume(iv >= -3 && iv <= 3000)
+	for _, c := range bcl.VerifConsts(p) {
+		if c == 1001 {
+			phs, vals = append(phs, 1001), append(vals, iv)
+			break
+		}
+	}
+	if containsStr(src, "\"s1\"") {
+		phs, vals = append(phs, "s1"), append(vals, verif.String("s", 2))
+	}
+	patchConsts(p, phs, vals)
+	var b bytes.Buffer
+	if p.Dump(&b) != nil {
+		panic("dump failed")
+	}
+	d, ok := refbcl.Decode(b.Bytes())
+	verif.Assert(ok, "the reference decoder accepts the dump")
+	if !ok {
+		return
+	}
+	verif.Assert(d.Major == 1 && d.Minor == 1, "version 1.1")
+	verif.Assert(d.Name == "name", "name section")
+	verif.Assert(bytes.Equal(d.Code, bcl.VerifCode(p)), "code section")
+	consts := bcl.VerifConsts(p)
+	same := len(d.Consts) == len(consts)
+	if same {
+		for i := range consts {
+			same = same && sameValue(d.Consts[i], consts[i])
+		}
+	}
+	verif.Assert(same, "constants section")
+	pos, lfs := bcl.VerifPositions(p), bcl.VerifLfs(p)
+	same = len(d.Positions) == len(pos) && len(d.Lfs) == len(lfs)
+	if same {
+		for i := range pos {
+			same = same && d.Positions[i] == pos[i]
+		}
+		for i := range lfs {
+			same = same && d.Lfs[i] == lfs[i]
+		}
+	}
+	verif.Assert(same, "positions and line table sections")
+	verif.Assert(bytes.Equal(d.Encode(), b.Bytes()), "re-encoding gives the same bytes")
+	verif.Reach("decoded")
 }
